@@ -36,4 +36,9 @@ theorem C04_guards_table_covers :
       "src/callable/thermostat_la.cpp"].all (fun f => partnerWrites.any (fun w => w.1 == f && w.2.2.1) &&
         partnerWrites.any (fun w => w.1 == f && !w.2.2.1)) = true := by decide +kernel
 
+
+/-- C04 / C07 "only inside the module's own cutoff": no write to a pair partner anywhere in the tree is guarded by a comparison of the
+pair distance with the cutoff of the shared neighbour list (which is the maximum over everything registered on the species pair) -/
+theorem C07_no_write_guarded_by_list_cutoff : Sympler.Gen.PairGuards.listCutoffGuarded = [] := by decide
+
 end Sympler.PairGuards
